@@ -28,10 +28,18 @@ type c18case struct {
 	Gaps     []int // multiples of I/2
 	Duration time.Duration
 	Fails    int // the first Fails event runs of the throttled hook fail (retries are executions too)
+	// Shape of the throttled hook: "" one binding in queue qa; "multi" three bindings in qa (three
+	// Synchronization executions back to back at start-up); "twoq" two bindings in two queues
+	// (executions of one hook started by two queue workers at the same instant)
+	Shape string
 }
 
 func (c c18case) String() string {
-	return fmt.Sprintf("I=%s/B=%d/gaps=%v/dur=%s/fails=%d", c.I, c.B, c.Gaps, c.Duration, c.Fails)
+	s := fmt.Sprintf("I=%s/B=%d/gaps=%v/dur=%s/fails=%d", c.I, c.B, c.Gaps, c.Duration, c.Fails)
+	if c.Shape != "" {
+		s += "/" + c.Shape
+	}
+	return s
 }
 
 func c18hookA(c c18case) string {
@@ -39,7 +47,14 @@ func c18hookA(c c18case) string {
 	if c.I > 0 {
 		s += fmt.Sprintf("settings:\n  executionMinInterval: %s\n  executionBurst: %d\n", c.I, c.B)
 	}
-	return s + "kubernetes:\n- name: kb\n  kind: ConfigMap\n  queue: qa\n  namespace: {nameSelector: {matchNames: [n1]}}\n"
+	s += "kubernetes:\n- name: kb\n  kind: ConfigMap\n  queue: qa\n  namespace: {nameSelector: {matchNames: [n1]}}\n"
+	switch c.Shape {
+	case "multi":
+		s += "- name: kb2\n  kind: ConfigMap\n  queue: qa\n  namespace: {nameSelector: {matchNames: [n1]}}\n- name: kb3\n  kind: ConfigMap\n  queue: qa\n  namespace: {nameSelector: {matchNames: [n1]}}\n"
+	case "twoq":
+		s += "- name: kc\n  kind: ConfigMap\n  queue: qa2\n  namespace: {nameSelector: {matchNames: [n2]}}\n"
+	}
+	return s
 }
 
 const c18hookB = "configVersion: v1\nkubernetes:\n- name: kfree\n  kind: ConfigMap\n  queue: qb\n  namespace: {nameSelector: {matchNames: [n2]}}\n"
@@ -121,7 +136,7 @@ func c18body(c c18case, obs *c18obs) func(x *vrt.Exec) {
 			if !envDone || hub.Pending() || hub.Busy != 0 {
 				return false
 			}
-			for _, q := range []string{"main", "qa", "qb"} {
+			for _, q := range []string{"main", "qa", "qa2", "qb"} {
 				if tq := fx.op.TaskQueues.GetByName(q); tq != nil && (!tq.IsEmpty() || !idle(fx, q)) {
 					return false
 				}
@@ -239,7 +254,7 @@ func TestVerifC18(t *testing.T) {
 				}
 				for _, dur := range []time.Duration{0, cf.I} {
 					if dur == 0 || cf.I > 0 {
-						cases = append(cases, c18case{cf.I, cf.B, gaps, dur, 0})
+						cases = append(cases, c18case{cf.I, cf.B, gaps, dur, 0, ""})
 					}
 				}
 				i := n - 1
@@ -257,9 +272,18 @@ func TestVerifC18(t *testing.T) {
 			}
 		}
 	}
+	// other hook shapes: several Synchronization executions back to back; one hook served by two queues
+	for _, cf := range cfgs {
+		if cf.I == 0 {
+			continue
+		}
+		for _, gaps := range [][]int{{0}, {0, 0}, {1, 0}, {4}} {
+			cases = append(cases, c18case{cf.I, cf.B, gaps, 0, 0, "multi"}, c18case{cf.I, cf.B, gaps, 0, 0, "twoq"})
+		}
+	}
 	// failing runs: retries are executions as well and must respect the limit (interval longer than the back-off)
 	for _, fails := range []int{1, 2, 3} {
-		cases = append(cases, c18case{30 * time.Second, 1, []int{0}, 0, fails}, c18case{30 * time.Second, 2, []int{0, 1}, 0, fails}, c18case{8 * time.Second, 1, []int{0}, 0, fails})
+		cases = append(cases, c18case{30 * time.Second, 1, []int{0}, 0, fails, ""}, c18case{30 * time.Second, 2, []int{0, 1}, 0, fails, ""}, c18case{8 * time.Second, 1, []int{0}, 0, fails, ""})
 	}
 	r.Bound("configurations", "(1s,1) (2s,3) (500ms,2) none; with failing runs (30s,1) (30s,2) (8s,1)")
 	r.Bound("max_arrivals", maxLen)
